@@ -243,13 +243,13 @@ func (e *Engine) Explore(harness string, workers int, solvers []string, queryMs 
 				}
 				wantSample := false
 				class := strings.Join(x.outcomes, ",")
-				if status == "done" && !rep.classes[class] && len(rep.Samples) < maxSamples {
+				if status == "done" && !rep.classes[class] && len(rep.Samples) < maxSamples && len(x.unreplayable) == 0 {
 					rep.classes[class] = true
 					wantSample = true
 				}
 				mu.Unlock()
 				if wantSample {
-					if r, m := x.checkM(); r == Sat {
+					if r, m, robust := x.checkModel(); r == Sat && robust {
 						mu.Lock()
 						rep.Samples = append(rep.Samples, &PathSample{Model: m, Outcomes: append([]string{}, x.outcomes...), Decision: dec})
 						mu.Unlock()
